@@ -26,7 +26,7 @@ RULE = ('cases = default sets (plain, renamed one-to-one, one deprecated name sp
         'files defining both a deprecated name and a successor, or referencing a deprecated name via rule:) x tool '
         '(upgrade YAML/JSON in and out; convert JSON->YAML; policy-generator and list-redundant with a main file plus '
         'directory overrides, each name in at most one file, file rules spelled as textual variants of the default, as near misses (one operand of the top-level and/or dropped or '
-        'added), as always-allow ("", "@", []) or as different rules, no override under a deprecated name; in 40 % of these cases the files are rewritten after the first load and the tools then run on the living enforcer; namespaces hand their defaults over as a list or as a one-shot iterable). Stratum "repeat" (same input again): ONE input policy text (YAML as dumped, YAML one rule per line, or JSON) is handed to several tools and enforcers back to back in one process - upgrade under two different default sets in both orders (renaming set, the same names all ordinary, the old names renamed to other successors, a fresh renaming set), convert then upgrade, generator / list-redundant / a fresh enforcer on the INPUT file right after a tool ran on it; the decisions of the input under each default set are measured first thing in the case, before any tool has seen the text, and every later output (and every later enforcer on the untouched input) is compared with them. Decisions compared under all 16 subsets of 4 roles and 2 '
+        'added), as always-allow ("", "@", []) or as different rules, no override under a deprecated name; in 40 % of these cases the files are rewritten after the first load and the tools then run on the living enforcer; namespaces hand their defaults over as a list or as a one-shot iterable). Stratum "repeat" (same input again): ONE input policy text (YAML as dumped, YAML one rule per line, or JSON) is handed to several tools and enforcers back to back in one process - upgrade under two different default sets in both orders (renaming set, the same names all ordinary, the old names renamed to other successors, a fresh renaming set), convert then upgrade, generator / list-redundant / a fresh enforcer on the INPUT file right after a tool ran on it; the decisions of the input under each default set are measured first thing in the case, before any tool has seen the text, and every later output (and every later enforcer on the untouched input) is compared with them. Stratum "long" (rule texts and names far longer than one line of a generated file): default sets (plain, renamed one-to-one, changed default under the same name, a shared rule: target) whose check strings are or/and chains of 60-450 characters over role:a..d padded with clauses that are neutral for the 16 role subsets (blanks at many positions), single tokens of 80-300 characters without any blank (some with quotes, backslashes, non-ASCII), long list-of-lists rules, and names of 6-200 characters (a few with blanks); file rules that equal the registered default textually or as a textual variant, near misses, different long rules, overrides and aliases under the deprecated name, unknown names; convert (JSON in), upgrade (JSON / YAML as dumped / YAML one rule per line in, YAML / JSON out), generator + list-redundant (main file + policy.d in the three input styles); extra credentials hold the long role names so that a mangled long leaf changes a decision. Decisions compared under all 16 subsets of 4 roles and 2 '
         'targets. Non-trivial = the file overrides at least one registered or deprecated name; distinct = distinct (defaults, files, tool).')
 ASSUMPTIONS = ['default configuration (enforce_new_defaults and enforce_scope at their defaults), no scope types: "request scope matching"',
                'redundant rules are read from list-redundant output lines of the form "name": ... (pinned by the repository\'s ListRedundantTestCase)',
@@ -36,7 +36,9 @@ LEVEL_TEXT = ('Seeded sampling of (defaults, operator files) with targeted shape
 LEVEL_NOTE = 'trusted: a real Enforcer on the unmodified input as the oracle; the stevedore test manager stands for entry points'
 PLAN = {'quick': dict(shards=8, wall=150), 'thorough': dict(shards=16, wall=500)}
 MIN = {'evaluations': 400, 'upgrade_runs': 100, 'convert_runs': 100, 'generator_runs': 100, 'redundant_reports': 30, 'tools_on_living_enforcer': 30,
-       'decisions_compared': 20000, 'same_input_repeats': 30, 'same_input_steps': 80, 'same_input_decisions_compared': 10000}
+       'decisions_compared': 20000, 'same_input_repeats': 30, 'same_input_steps': 80, 'same_input_decisions_compared': 10000,
+       'long_text_cases': 40, 'long_text_cases.convert': 10, 'long_text_cases.upgrade': 8, 'long_text_cases.generator': 10,
+       'long_text_equal_default_rules': 40, 'long_text_decisions_compared': 25000}
 ANCHORS = ['oslo_policy.generator:_convert_policy_json_to_yaml', 'oslo_policy.generator:_upgrade_policies',
            'oslo_policy.generator:_generate_policy', 'oslo_policy.generator:_list_redundant',
            'oslo_policy.generator:upgrade_policy', 'oslo_policy.generator:convert_policy_json_to_yaml']
@@ -84,17 +86,25 @@ def gen_rule(rnd, depth, odd=0.0):
     return '(' + (' %s ' % rnd.choice(['and', 'or'])).join(gen_rule(rnd, depth - 1, odd) for _ in range(2)) + ')'
 
 
+# entries of a list rule are NOT tokenized: these are single checks in a list, but would be several tokens (or a different
+# token) inside a check string - a tool that spells a list rule as text changes what they mean
+LIST_ONLY_LEAVES = ['role:project admin', 'role:a )', 'role:(b', 'role:x  y', "'x y':%(k)s", 'role:and a', 'role:not', 'role:a or role:b']
+LIST_ONLY_CREDS = [['project admin'], ['a )'], ['(b'], ['x  y'], ['and a'], ['not'], ['a or role:b'], ['project admin', 'a']]
+
+
 def gen_list(rnd):
     """A legacy list-of-lists rule: inner lists (possibly empty), bare strings, the empty list."""
     out = []
+    odd = rnd.random() < 0.35
     for _ in range(rnd.randint(0, 3)):
         r = rnd.random()
         if r < 0.2:
             out.append([])
         elif r < 0.35:
-            out.append(rnd.choice(['role:a', 'role:b', '@', '!', 'rule:base']))
+            out.append(rnd.choice(['role:a', 'role:b', '@', '!', 'rule:base'] + (LIST_ONLY_LEAVES if odd else [])))
         else:
-            out.append([rnd.choice(['role:a', 'role:b', 'role:c', '@', '!', "'x':%(k)s"]) for _ in range(rnd.randint(1, 3))])
+            out.append([rnd.choice(['role:a', 'role:b', 'role:c', '@', '!', "'x':%(k)s"] + (LIST_ONLY_LEAVES if odd else []))
+                        for _ in range(rnd.randint(1, 3))])
     return out
 
 
@@ -224,10 +234,10 @@ def mgr_for(objs):
     return stevedore.named.NamedExtensionManager.make_test_instance(extensions=exts, namespace=list(objs))
 
 
-def table(enf, names):
+def table(enf, names, more_creds=()):
     out = {}
     for n in names:
-        for roles in SUBS + ODD_CREDS:
+        for roles in SUBS + ODD_CREDS + [list(c) for c in more_creds]:
             for k in ('x', 'y', '\U00010348'):
                 try:
                     out['%s|%s|%s' % (n, ''.join(roles), k)] = bool(enf.enforce(n, {'k': k}, {'roles': list(roles)}))
@@ -284,6 +294,8 @@ def check_case(ctx, case):
     from oslo_policy import generator, policy
     if case['tool'] == 'repeat':
         return check_repeat(ctx, case)
+    if case['tool'] == 'long':
+        return check_long(ctx, case)
     spec = case['defaults']
     ds = build_defaults(policy, spec)
     regnames = [d.name for d in ds]
@@ -634,6 +646,370 @@ def gen_repeat_case(rnd):
     return dict(tool='repeat', sets=sets, file=f, in_fmt=in_fmt, steps=steps)
 
 
+# ---- stratum 'long': rule texts and names far longer than one line of a generated file ---------------------------------
+# (the module's other rules are a few dozen characters; real policy files carry or/and chains of several hundred)
+
+LONG_WORD_ALPHA = 'abcdefghijklmnopqrstuvwxyz0123456789_-.'
+LONG_ODD_CHARS = ['\\', '"', 'é', '\U0001F600']
+LONG_NAME_HEADS = ['os_compute_api', 'identity', 'volume_extension', 'network', 'image', 'share', 'x']
+
+
+def long_word(rnd, n, odd=False):
+    """One token of n characters without a blank (optionally with characters that a quoting helper has to escape)."""
+    az = 'abcdefghijklmnopqrstuvwxyz'
+    cs = [rnd.choice(az)] + [rnd.choice(LONG_WORD_ALPHA) for _ in range(max(n - 2, 0))] + [rnd.choice(az)]
+    if odd and len(cs) > 4:
+        for _ in range(rnd.randint(1, 4)):
+            cs[rnd.randrange(1, len(cs) - 1)] = rnd.choice(LONG_ODD_CHARS)
+    return ''.join(cs)
+
+
+def long_len(rnd):
+    r = rnd.random()
+    if r < 0.1:
+        return rnd.randint(60, 79)          # below 80 on its own, beyond it once the name stands in front
+    if r < 0.4:
+        return rnd.randint(80, 120)
+    if r < 0.7:
+        return rnd.randint(120, 200)
+    return rnd.randint(200, 400)
+
+
+def long_name(rnd, n, spaces=False, taken=()):
+    while True:
+        segs = [rnd.choice(LONG_NAME_HEADS)]
+        while len(':'.join(segs)) < n:
+            segs.append(long_word(rnd, rnd.randint(3, 16)))
+        name = segs[0]
+        for s in segs[1:]:
+            name += (' ' if spaces and rnd.random() < 0.5 else ':') + s
+        if name not in taken:
+            return name
+
+
+def long_render(node, paren=True, top=True):
+    if isinstance(node, str):
+        return node
+    if node[0] == 'not':
+        return 'not ' + long_render(node[1], paren, False)
+    parts = []
+    for kid in node[1]:
+        t = long_render(kid, paren, False)
+        if not isinstance(kid, str) and kid[0] in ('and', 'or') and (paren or not (node[0] == 'or' and kid[0] == 'and')):
+            t = '(' + t + ')'
+        parts.append(t)
+    return (' %s ' % node[0]).join(parts)
+
+
+def long_eval(node, roles, k):
+    """Reference value of a generated chain (only used to reject chains that decide the same for every role subset)."""
+    if isinstance(node, str):
+        if node == '@':
+            return True
+        if node.startswith('role:'):
+            return node[5:].lower() in [r.lower() for r in roles]
+        if node.endswith(':%(k)s'):
+            return node[1:-7] == k
+        return False                         # '!', rule: references
+    if node[0] == 'not':
+        return not long_eval(node[1], roles, k)
+    vals = [long_eval(kid, roles, k) for kid in node[1]]
+    return all(vals) if node[0] == 'and' else any(vals)
+
+
+def long_chain(rnd, target, absent, shared):
+    """A long or/and chain over the role universe: 1-3 live clauses over role:a..d (so that the decision still depends on
+    the roles) padded with clauses that are neutral for the 16 role subsets (they mention roles only the extra
+    credentials hold, or constants); blanks fall wherever the clause lengths put them."""
+    def live():
+        r = rnd.random()
+        if r < 0.12:
+            return "'y':%(k)s"
+        if r < 0.22 and shared:
+            return 'rule:' + shared
+        leaf = 'role:' + rnd.choice(ROLES)
+        return ('not', leaf) if r > 0.8 else leaf
+
+    def neutral(false):
+        r = rnd.random()
+        if r < 0.15:
+            leaf = '!' if false else '@'
+        elif r < 0.3:
+            return "'zz':%(k)s" if false else ('not', "'zz':%(k)s")
+        else:
+            leaf = 'role:' + rnd.choice(absent)
+            if not false:
+                return ('not', leaf)
+        return leaf
+
+    for _ in range(6):
+        shape = rnd.choice(['dnf', 'dnf', 'cnf', 'or', 'and'])
+        top = 'or' if shape in ('dnf', 'or') else 'and'
+        inner = 'and' if top == 'or' else 'or'
+        kids = []
+        for _ in range(rnd.randint(1, 3)):
+            n = 1 if shape in ('or', 'and') else rnd.randint(1, 3)
+            kids.append((inner, [live() for _ in range(n)]) if n > 1 else live())
+        paren = shape != 'dnf' or rnd.random() < 0.6
+        while len(long_render((top, kids), paren)) < target:
+            if shape in ('or', 'and'):
+                kids.append(neutral(top == 'or'))
+            else:
+                cl = [live() for _ in range(rnd.randint(0, 2))] + [neutral(top == 'or')]
+                rnd.shuffle(cl)
+                kids.append((inner, cl) if len(cl) > 1 else cl[0])
+        rnd.shuffle(kids)
+        node = (top, kids) if len(kids) > 1 else kids[0]
+        seen = {long_eval(node, roles, k) for roles in SUBS for k in ('x', 'y')}
+        if len(seen) == 2:
+            break
+    return long_render(node, paren)
+
+
+def long_list(rnd, target, absent):
+    """A long rule in the legacy list-of-lists syntax."""
+    out = []
+    while len(json.dumps(out)) < target:
+        inner = []
+        for _ in range(rnd.randint(1, 3)):
+            r = rnd.random()
+            inner.append('role:' + rnd.choice(ROLES) if r < 0.5 else 'role:' + rnd.choice(absent) if r < 0.9 else rnd.choice(['!', "'y':%(k)s"]))
+        out.append(inner if rnd.random() < 0.85 else inner[0])
+    return out
+
+
+def long_text(rnd, absent, tokens, shared, lists=False):
+    """One long rule value: a chain with blanks at many positions, or a single token without any blank."""
+    r = rnd.random()
+    if lists and r < 0.15:
+        return long_list(rnd, long_len(rnd), absent)
+    if r < 0.3:
+        tok = 'role:' + rnd.choice(tokens)
+        r2 = rnd.random()
+        if r2 < 0.5:
+            return tok                                              # no blank at all
+        if r2 < 0.75:
+            return '%s %s %s' % (rnd.choice(['role:a', 'role:b', 'not role:c']), rnd.choice(['or', 'and']), tok)   # blanks only at the start
+        return '%s %s %s' % (tok, rnd.choice(['or', 'and']), rnd.choice(['role:a', 'role:d', "'y':%(k)s"]))      # blanks only at the end
+    return long_chain(rnd, long_len(rnd), absent, shared)
+
+
+def gen_long_case(rnd):
+    op = rnd.choice(['convert', 'convert', 'convert', 'upgrade', 'upgrade', 'generator', 'generator', 'generator'])
+    # roles that none of the 16 subsets holds (the extra credentials of the case hold them): medium words and long tokens
+    absent = [long_word(rnd, rnd.randint(6, 40), odd=rnd.random() < 0.15) for _ in range(rnd.randint(3, 5))]
+    tokens = [long_word(rnd, rnd.randint(80, 300), odd=rnd.random() < 0.4) for _ in range(2)]
+    creds = [[absent[0]], [absent[1], 'b'], [tokens[0]], [tokens[1], 'a'], [tokens[0], absent[2], 'c', 'd']]
+    taken = []
+
+    def name(long_p=0.5, spaces_p=0.12):
+        r = rnd.random()
+        n = rnd.randint(80, 200) if r < long_p else rnd.randint(30, 79) if r < long_p + 0.25 else rnd.randint(6, 29)
+        nm = long_name(rnd, n, spaces=rnd.random() < spaces_p, taken=taken)
+        taken.append(nm)
+        return nm
+
+    shared = 'base' if rnd.random() < 0.5 else name(0.4, 0.0)
+
+    def check(long_p=0.75, refs=True):
+        if rnd.random() < long_p:
+            return long_text(rnd, absent, tokens, shared if refs else None)
+        return gen_rule(rnd, 1).replace('rule:base', 'rule:' + shared if refs else 'role:b')
+
+    entries = [dict(name=shared, check=check(0.4, refs=False))]
+    for _ in range(rnd.randint(2, 4)):
+        e = dict(name=name(), check=check())
+        if rnd.random() < 0.4:
+            e.update(doc=True, desc=rnd.choice(['d', 'Show the details of one %s.' % long_word(rnd, rnd.randint(5, 90)),
+                                                ' '.join(long_word(rnd, rnd.randint(2, 12)) for _ in range(rnd.randint(5, 40)))]))
+        entries.append(e)
+    entries.append(dict(name=name(), check=check(), old=dict(name=name(), check=check(0.5))))           # renamed one-to-one
+    if rnd.random() < 0.5:
+        nm = name()
+        entries.append(dict(name=nm, check=check(), old=dict(name=nm, check=check(0.5))))               # changed default, same name
+    f = {}
+    for e in entries:
+        old = e.get('old')
+        if old and old['name'] != e['name'] and op != 'generator' and rnd.random() < 0.4:
+            # an override under the deprecated name (never beside its successor; the generator sees none)
+            r = rnd.random()
+            f[old['name']] = alias_of(rnd, e['name']) if r < 0.25 else long_text(rnd, absent, tokens, shared, lists=True) if r < 0.85 else gen_rule(rnd, 1, 0.15).replace('rule:base', 'rule:' + shared)
+            continue
+        if rnd.random() < 0.7:
+            r = rnd.random()
+            dt = e['check']
+            if r < 0.3:
+                f[e['name']] = dt                                   # textually the registered default
+            elif r < 0.5:
+                f[e['name']] = variant(rnd, dt)                     # the default, spelled differently
+            elif r < 0.63:
+                f[e['name']] = near_miss(rnd, dt)
+            elif r < 0.9:
+                f[e['name']] = long_text(rnd, absent, tokens, shared if e['name'] != shared else None, lists=True)
+            else:
+                f[e['name']] = gen_rule(rnd, 2, 0.15).replace('rule:base', 'rule:' + shared if e['name'] != shared else 'role:c')
+    for _ in range(rnd.randint(0, 2)):
+        f[name(0.5, 0.2)] = long_text(rnd, absent, tokens, shared, lists=True) if rnd.random() < 0.8 else gen_rule(rnd, 2, 0.15).replace('rule:base', 'rule:' + shared)
+    if rnd.random() < 0.5:
+        ks = list(f)
+        rnd.shuffle(ks)
+        f = {k: f[k] for k in ks}
+    case = dict(tool='long', op=op, defaults=entries, file=f, creds=creds, ns_obj=rnd.choice(['list', 'list', 'chain', 'generator']))
+    if op == 'upgrade':
+        case.update(in_fmt=rnd.choice(['json', 'yaml', 'yaml-lines']), out_fmt=rnd.choice(['yaml', 'yaml', 'json']))
+    elif op == 'generator':
+        case.update(in_fmt=rnd.choice(['json', 'yaml', 'yaml-lines']), in_main=[k for k in f if rnd.random() < 0.6])
+    return case
+
+
+def build_long_defaults(policy, entries):
+    ds = []
+    for e in entries:
+        dep = None
+        if e.get('old'):
+            dep = policy.DeprecatedRule(e['old']['name'], e['old']['check'], deprecated_reason='r', deprecated_since='s')
+        if e.get('doc'):
+            ds.append(policy.DocumentedRuleDefault(e['name'], e['check'], e.get('desc') or 'd', [{'path': '/', 'method': 'GET'}],
+                                                   deprecated_rule=dep))
+        else:
+            ds.append(policy.RuleDefault(e['name'], e['check'], deprecated_rule=dep))
+    return ds
+
+
+def squeeze(v):
+    return ' '.join(v.lower().split()) if isinstance(v, str) else None
+
+
+def blank_in_list_leaf(v):
+    if isinstance(v, list):
+        return any(isinstance(x, list) and blank_in_list_leaf(x) or isinstance(x, str) and len(x.split()) > 1 for x in v)
+    return False
+
+
+def compare_long(ctx, case, op, t_in, t_out, extra):
+    ctx.count('long_text_decisions_compared', len(t_in))
+    if t_in == t_out:
+        return True
+    diff = [k for k in t_in if t_in[k] != t_out.get(k)]
+    names = sorted({k.split('|')[0] for k in diff})
+    key = '%s-long-text-changes-decisions' % op
+    if op != 'upgrade' and any(blank_in_list_leaf(case['file'].get(n)) for n in names):
+        # not a matter of length: the rule of a differing name is a list-of-lists rule with a leaf that contains a blank
+        # (one check in the list syntax, several tokens once the tool has written the rule as a check string)
+        key = 'rewrite-list-leaf-with-blank'
+    ctx.violation(key, case,
+                  dict(extra, tool=op, file=case['file'], differing_names=names,
+                       examples={k[:160]: [t_in[k], t_out.get(k)] for k in diff[:4]}))
+    return False
+
+
+def check_long(ctx, case):
+    from oslo_config import cfg
+    from oslo_policy import generator, policy
+    op, f, entries, creds = case['op'], case['file'], case['defaults'], case['creds']
+    ds = build_long_defaults(policy, entries)
+    regnames = [d.name for d in ds]
+    oldnames = [e['old']['name'] for e in entries if e.get('old') and e['old']['name'] != e['name']]
+    unknown = [n for n in f if n not in regnames and n not in oldnames] + ['unknown:x']
+    tree = files.Tree(dirs=('pd',))
+    try:
+        ctx.case(case, nontrivial=any(n in f for n in regnames + oldnames), stratum='long')
+        ctx.count('long_text_cases')
+        ctx.count('long_text_cases.' + op)
+        ctx.count('long_text_items_over_80', sum(1 for k, v in f.items() for t in (k, v if isinstance(v, str) else json.dumps(v)) if len(t) > 80))
+        ctx.count('long_text_equal_default_rules',
+                  sum(1 for e in entries if len(e['check']) > 80 and e['name'] in f and squeeze(f[e['name']]) == squeeze(e['check'])))
+
+        def fail(what, detail):
+            ctx.violation('%s-long-text-%s' % (op, what), case, dict(detail, tool=op, file=f))
+
+        def ns(obj):
+            return mock.patch('stevedore.named.NamedExtensionManager', return_value=mgr_for({'ns': obj}))
+
+        if op in ('convert', 'upgrade'):
+            in_fmt = 'json' if op == 'convert' else case['in_fmt']
+            in_rel = 'in.json' if in_fmt == 'json' else 'in.yaml'
+            tree.write(in_rel, f, in_fmt)
+            # convert keeps the deprecated names (as extra rules); they do not survive an upgrade
+            names = regnames + unknown + (oldnames if op == 'convert' else [])
+            t_in = table(enforcer_on(policy, tree, ds, in_rel), names, creds)
+            out_rel = 'out.' + (case['out_fmt'] if op == 'upgrade' else 'yaml')
+            out = tree.path(out_rel)
+            try:
+                with ns(one_shot(ds, case.get('ns_obj'))):
+                    if op == 'convert':
+                        generator.convert_policy_json_to_yaml(['--policy-file', tree.path(in_rel), '--namespace', 'ns',
+                                                               '--output-file', out], conf=cfg.ConfigOpts())
+                    else:
+                        generator.upgrade_policy(['--policy', tree.path(in_rel), '--namespace', 'ns', '--output-file', out,
+                                                  '--format', case['out_fmt']], conf=cfg.ConfigOpts())
+            except BaseException as e:
+                if isinstance(e, KeyboardInterrupt):
+                    raise
+                return fail('crashes-' + type(e).__name__, {'observed': '%s: %s' % (type(e).__name__, str(e)[:100])})
+            tree.stamp(out)
+            try:
+                enf_out = enforcer_on(policy, tree, ds, out_rel)
+                enf_out.load_rules()
+            except Exception as e:
+                return fail('output-not-loadable', {'output': open(out).read()[:1500], 'observed': type(e).__name__ + ': ' + str(e)[:200]})
+            compare_long(ctx, case, op, t_in, table(enf_out, names, creds), {'output': open(out).read()[:1500]})
+            return
+        # generator and list-redundant: main file + directory overrides, each name in at most one file
+        main = {k: v for k, v in f.items() if k in case['in_main']}
+        dirf = {k: v for k, v in f.items() if k not in case['in_main']}
+        tree.write('policy.yaml', main, case['in_fmt'])
+        if dirf:
+            tree.write('pd/over.yaml', dirf, case['in_fmt'])
+        names = regnames + unknown
+        enf_in = enforcer_on(policy, tree, ds, 'policy.yaml', dirs=('pd',))
+        t_in = table(enf_in, names, creds)
+        texts = {}
+        for tool in ('generator', 'redundant'):
+            buf = io.StringIO()
+            try:
+                with ns(enf_in), contextlib.redirect_stdout(buf):
+                    cfg.CONF.reset()
+                    if tool == 'generator':
+                        generator.generate_policy(['--namespace', 'ns'])
+                    else:
+                        generator.list_redundant(['--namespace', 'ns'])
+            except BaseException as e:
+                if isinstance(e, KeyboardInterrupt):
+                    raise
+                ctx.violation('%s-long-text-crashes-%s' % (tool if tool == 'generator' else 'list-redundant', type(e).__name__), case,
+                              {'tool': tool, 'file': f, 'observed': '%s: %s' % (type(e).__name__, str(e)[:100])})
+                return
+            finally:
+                cfg.CONF.reset()
+            texts[tool] = buf.getvalue()
+            if tool == 'generator':
+                tree.write_text('gen_out.yaml', texts[tool])
+                for label, with_defaults in (('beside-defaults', True), ('alone', False)):
+                    try:
+                        enf_out = enforcer_on(policy, tree, ds if with_defaults else [], 'gen_out.yaml')
+                        enf_out.load_rules()
+                    except Exception as e:
+                        return fail('output-not-loadable', {'output': texts[tool][:1500], 'observed': type(e).__name__ + ': ' + str(e)[:200]})
+                    if not compare_long(ctx, case, 'generator', t_in, table(enf_out, names, creds),
+                                        {'output': texts[tool][:1500], 'judged': label}):
+                        return
+        # a reported rule is recognised by its "name": prefix at the start of a line (as in the other strata)
+        red = [n for n in f if any(l.startswith('%s: ' % json.dumps(n)) for l in texts['redundant'].splitlines())]
+        if red:
+            ctx.count('long_text_redundant_reports', len(red))
+            tree.write('policy.yaml', {k: v for k, v in main.items() if k not in red}, case['in_fmt'])
+            if dirf:
+                tree.write('pd/over.yaml', {k: v for k, v in dirf.items() if k not in red}, case['in_fmt'])
+            t_red = table(enforcer_on(policy, tree, ds, 'policy.yaml', dirs=('pd',)), names, creds)
+            if t_red != t_in:
+                diff = [k for k in t_in if t_in[k] != t_red[k]]
+                ctx.violation('long-text-redundant-rule-not-deletable', case,
+                              {'reported': red, 'file': f, 'examples': {k[:160]: [t_in[k], t_red[k]] for k in diff[:4]}})
+    finally:
+        tree.cleanup()
+
+
 def gen_case(rnd):
     spec = gen_defaults(rnd)
     tool = rnd.choice(['upgrade', 'upgrade', 'convert', 'convert', 'generator', 'generator', 'generator'])
@@ -654,6 +1030,7 @@ def gen_case(rnd):
 def run(ctx):
     rnd = ctx.rnd
     rrnd = ctx.sub_rnd('repeat', ctx.tier, ctx.shard)
+    lrnd = ctx.sub_rnd('long', ctx.tier, ctx.shard)
     for i in range(N[ctx.tier] // ctx.nshards + 1):
         if ctx.expired():
             break
@@ -667,8 +1044,15 @@ def run(ctx):
             check_case(ctx, rcase)
             if i % 36 == 0:
                 ctx.sample(rcase, 'repeat')
+        if i % 5 == 2:
+            # interleaved, own random stream again: rule texts and names of 80-400 characters
+            lcase = gen_long_case(lrnd)
+            check_case(ctx, lcase)
+            if i % 35 == 2:
+                ctx.sample(lcase, 'long')
     ctx.stratum('random', exhaustive=False)
     ctx.stratum('repeat', exhaustive=False)
+    ctx.stratum('long', exhaustive=False)
 
 
 def replay(ctx, case):
